@@ -1,5 +1,81 @@
-//! C09 harness — to be written (see /verif/mc/HARNESS_GUIDE.md).
+//! C09 — logistic regression reaches the optimum of its penalised likelihood via L-BFGS.
+//!
+//! E1 (stateless choice-tree exploration of the real code). Two parts:
+//!
+//! * `logit.rs`: every small training set over a sharp alphabet (p = 1 over Sigma4, p = 2 over the
+//!   2x2 lattice, 2..4 label letters, n = 6..8 as multisets or as sequences) and a deterministic
+//!   structured family (p <= 6, n <= 100, 2..4 classes, cyclic / separable / noisy layouts), each
+//!   under every feature map, every alpha and both label tables, fitted by the real
+//!   `LogisticRegression::fit` and judged by the harness's own gradient / objective / scores.
+//! * `quad.rs`: the crate-private `LBFGS` + `Backtracking` (verif-hooks re-export) on every member
+//!   of the SPD quadratic families of dimension 1..12 from every lattice start.
+//!
+//! The library draws no random numbers on these paths: there is no schedule dimension.
+
+mod logit;
+mod quad;
+mod refs;
+
+use mc_core::{self as mc, json, Harness, Job, Plan, Tier};
+
+struct C09;
+
+impl Harness for C09 {
+    fn id(&self) -> &'static str {
+        "C09"
+    }
+
+    fn plan(&self, tier: Tier, seed: u64) -> Plan {
+        let t = tier.is_thorough();
+        let mut jobs = Vec::new();
+        quad::plan(t, seed, &mut jobs);
+        logit::plan(t, seed, &mut jobs);
+        let mut floors = logit::floors(t);
+        floors.extend(quad::floors(t));
+        Plan {
+            jobs,
+            budget_s: if t { 2700 } else { 40 },
+            case_deadline_ms: 20_000,
+            floors,
+            bounds: json!({
+                "logistic": logit::bounds(t, seed),
+                "lbfgs_quadratics": quad::bounds(t),
+            }),
+        }
+    }
+
+    fn run(&self, job: &Job) {
+        match job.kind() {
+            "quad" => quad::run(job),
+            "multiset" | "sequence" | "structured" => logit::run(job),
+            other => panic!("unknown job kind {}", other),
+        }
+    }
+
+    fn cleanup(&self) {
+        mc_sc::release_rng();
+    }
+
+    fn rule(&self) -> String {
+        "one execution = one (training set, feature map, alpha, label table) fitted and predicted by the real LogisticRegression, or one (quadratic, start, optimum, line-search order) minimised by the real LBFGS; non-trivial = the optimiser left its starting point; distinct = distinct digest of the returned parameters (9 significant digits) and predictions / of the returned minimiser and iteration count".into()
+    }
+
+    fn assumptions(&self) -> Vec<String> {
+        vec![
+            "f64 only; DenseMatrix backend only (other backends are C20's subject)".into(),
+            "stationarity threshold: |grad|_inf at the returned parameters <= 1e-3 * max(|grad(0)|_inf, 1) for alpha >= 1e-2 (DESIGN C09)".into(),
+            "the class <-> coefficient-row association is not part of the statement: any association under which all clauses hold is accepted (identity tried first)".into(),
+            "quadratics are normalised to smallest eigenvalue 1, so the optimiser's absolute gradient tolerance 1e-8 cannot be the reason for a reduction of less than 1e-6".into(),
+            "LBFGS::default() and Backtracking::default() with order SECOND and THIRD (the configuration logistic regression uses) — other parameter settings are not explored".into(),
+            "no RNG is drawn on these paths (check_rng_sites at start-up; own_rng is not needed)".into(),
+        ]
+    }
+}
+
 fn main() {
-    eprintln!("MACHINERY-ERROR: harness C09 not built yet");
-    std::process::exit(2);
+    if let Err(e) = mc_sc::check_rng_sites() {
+        eprintln!("MACHINERY-ERROR: {}", e);
+        std::process::exit(2);
+    }
+    mc::main(C09)
 }
